@@ -630,6 +630,51 @@ fn word_run(rng: &mut Rng, out: &mut Out) {
     for _ in 0..(pins + reading) { rec.verif_extent_release(); }
 }
 
+// ---------------------------------------------------------------- C07: free-running histories
+
+/// threads released by a barrier run their calls without any scheduling: races inside the
+/// guarded steps and in the index itself happen for real.  Every call is stamped with a global
+/// sequence number at invocation and at response; the histories go to the linearizability search
+/// (no model involved: this probes the guard-atomicity assumption of the Conc model).
+fn stress_case(rng: &mut Rng, sink: &mut Vec<String>, dir: &str, idx: u64) {
+    use std::sync::atomic::{AtomicU64, Ordering as O};
+    let cfg = Config { mem: rng.chance(1, 2), cache: rng.chance(1, 2) };
+    feoxdb::verif::clock::pin(WALL);
+    let path = format!("{}/stress{}.feox", dir, idx);
+    let store = match open(&cfg, &path) { Ok(s) => Arc::new(s), Err(_) => return };
+    let family = 1 + idx % 3;
+    let n = rng.range(2, 4) as usize;
+    let key = format!("s{}", idx).into_bytes();
+    let kind = match family { 1 => Kind::Num, 2 => Kind::Json, _ => Kind::Raw };
+    let _ = store.insert(&key, &Val { kind, n: 1 }.encode());
+    let seq = Arc::new(AtomicU64::new(1));
+    let barrier = Arc::new(std::sync::Barrier::new(n));
+    let progs: Vec<Vec<Op>> = (0..n).map(|_| (0..rng.range(1, 3)).map(|_| gen_op(rng, family)).collect()).collect();
+    let handles: Vec<_> = progs.into_iter().enumerate().map(|(t, prog)| {
+        let (st, k, sq, b) = (store.clone(), key.clone(), seq.clone(), barrier.clone());
+        std::thread::spawn(move || {
+            b.wait();
+            let mut rows = vec![];
+            for op in prog {
+                let i = sq.fetch_add(1, O::SeqCst);
+                let r = op.exec(&st, &k);
+                let j = sq.fetch_add(1, O::SeqCst);
+                rows.push(format!("{} {} {} | {} | {}", t, i, j, op.line(), r));
+            }
+            rows
+        })
+    }).collect();
+    let mut rows = vec![format!("case {} seed-kind {} threads {}", idx, family, n), format!("0 0 0 | ins {} - | created", Val { kind, n: 1 }.text())];
+    for h in handles {
+        if let Ok(r) = h.join() { rows.extend(r); }
+    }
+    let fin = Op::Get { bytes: false }.exec(&store, &key);
+    rows.push(format!("0 {} {} | get | {}", u64::MAX - 1, u64::MAX, fin));
+    sink.extend(rows);
+    drop(store);
+    let _ = std::fs::remove_file(&path);
+}
+
 // ---------------------------------------------------------------- C14: a range scan racing with writers
 
 fn scan_key(id: u64) -> Vec<u8> { format!("r{:03}", id).into_bytes() }
@@ -1125,6 +1170,11 @@ fn main() {
     for _ in 0..get("words", 0) {
         word_run(&mut rng, &mut out);
     }
+    let mut stress_rows: Vec<String> = vec![];
+    for i in 0..get("stress", 0) {
+        stress_case(&mut rng, &mut stress_rows, &args.out, i);
+    }
+    std::fs::write(format!("{}/conc.stress", args.out), stress_rows.iter().map(|l| format!("{}\n", l)).collect::<String>()).unwrap();
     for i in 0..get("scans", 0) {
         scan_case(&mut rng, &mut out, &ctl, &args.out, i);
     }
